@@ -184,3 +184,273 @@ def rule_pairing(ctx):
     must_call_on_success(ctx, "PAIR", "HTPdelete", ["HTIunregister_tag_ref", PERSIST, "HAremove_atom"],
                          "a deleted DD must leave the tag tree and be written")
     must_call_on_success(ctx, "PAIR", "HTPupdate", [PERSIST], "changed offset/length must be written")
+
+
+# ---------------------------------------------------------------------------------------
+# F11 crash-ordering structure
+
+HDR_SZ = 6  # NDDS_SZ + OFFSET_SZ
+DD_SZ = 12
+
+
+def _size_class(e):
+    """classify the size argument of an HP_write in a DD-block creator"""
+    e = strip(e)
+    if kind(e) == "int":
+        return "hdr" if e[1] == HDR_SZ else "other"
+    has_dd = any(n[0] == "int" and n[1] == DD_SZ for n in walk(e, True))
+    has_hdr = any(n[0] == "int" and n[1] == HDR_SZ for n in walk(e, True))
+    if kind(e) == "bin" and e[1] == "*" and has_dd and not has_hdr:
+        return "list"
+    if has_dd and has_hdr:
+        return "both"
+    return "other"
+
+
+class F11c(PathAnalysis):
+    """typestate: 0 nothing, 1 header written, 2 header+NIL list written (contiguously)"""
+    stable_fields = (("filerec_t", "cache"),)
+
+    def __init__(self, prog, newblock_vars):
+        super().__init__(prog)
+        self.newvars = newblock_vars
+        self.bad_links = []
+        self.exits = []
+
+    def init_user(self, func):
+        return 0
+
+    def on_stmt(self, func, bid, idx, stmt, env, user):
+        st = user
+        for n in walk(stmt["e"]):
+            if n[0] == "call":
+                if n[1] == "HP_write" and len(n[3]) >= 3:
+                    c = _size_class(n[3][2])
+                    if c == "hdr" and st == 0:
+                        st = 1
+                    elif c == "list" and st == 1:
+                        st = 2
+                    elif c == "both" and st == 0:
+                        st = 2
+                elif n[1] == "HPseek":
+                    if st == 1:
+                        st = 0
+            elif n[0] == "asg":
+                t = strip(n[2])
+                if kind(t) == "mem" and t[3] == "ddblock_t" and t[2] == "nextoffset":
+                    b = path(t[1])
+                    if b not in self.newvars and not is_int(n[3], 0):
+                        if st != 2:
+                            self.bad_links.append((n[4], b, st, env.get("$file_rec->cache")))
+        return st
+
+    def on_exit(self, func, bid, retval, env, user):
+        self.exits.append((classify_ret(retval, self.fails), user, env.get("$file_rec->cache")))
+
+
+def rule_F11c(ctx):
+    prog = ctx.prog
+    creators = []
+    for f in prog.lib_funcs():
+        stores = False
+        newvars = set()
+        writes = False
+        for bid, i, s, n in f.nodes(into_seen=True):
+            if n[0] == "asg":
+                t = strip(n[2])
+                if kind(t) == "mem" and t[3] == "ddblock_t" and t[2] == "myoffset":
+                    stores = True
+                    newvars.add(path(t[1]))
+            elif n[0] == "call" and n[1] == "HP_write":
+                writes = True
+        if stores and writes:
+            creators.append((f, newvars))
+    for f, newvars in creators:
+        a = F11c(prog, newvars)
+        a.fails = fail_values(f, prog)
+        a.run(f)
+        key = "F11c:%s" % f.name
+        bad_exit = [(st, c) for cls, st, c in a.exits if cls != "fail" and st != 2]
+        if a.bad_links:
+            ln, b, st, c = a.bad_links[0]
+            ctx.violated("F11c", key + ":link", f.where(ln),
+                         "`%s->nextoffset` (the predecessor's link) is set on a path where the new DD block's %s not been written "
+                         "contiguously at its own offset (file_rec->cache %s): between the flush of the predecessor and of the new "
+                         "block the link points at bytes that are not a DD block" % (
+                             b, "header has" if st == 0 else "NIL descriptor list has", _cv(c)))
+        elif any(True for _ in [1]) and not bad_exit:
+            ctx.holds("F11c", key + ":link", f.where(), "no predecessor link is set before the new block is complete on disk")
+        if bad_exit:
+            st, c = bad_exit[0]
+            ctx.violated("F11c", key + ":complete", f.where(),
+                         "a non-failing return is reachable (file_rec->cache %s) with the new DD block only partly written: %s" % (
+                             _cv(c), "no header" if st == 0 else "header but no NIL descriptor list"))
+        else:
+            ctx.holds("F11c", key + ":complete", f.where(),
+                      "every non-failing path writes the 6-byte header and then the ndds*DD_SZ NIL list, with no seek in between")
+    ctx.floor("F11c", 2, len(creators), "(functions that create a DD block: store ddblock_t.myoffset and call HP_write)")
+
+
+def _cv(c):
+    if c is None:
+        return "unknown"
+    if c[0] == "c":
+        return "== %d" % c[1]
+    if c[0] == "ne":
+        return "!= %d" % c[1]
+    return str(c)
+
+
+class F11a(PathAnalysis):
+    stable_fields = (("filerec_t", "cache"),)
+
+    def __init__(self, prog):
+        super().__init__(prog)
+        self.sites = {}
+
+    def on_stmt(self, func, bid, idx, stmt, env, user):
+        for c in calls_in(stmt["e"]):
+            if c[1] == "HPseek":
+                v = None
+                for k, val in env.items():
+                    if k.startswith("$") and k.endswith("->cache"):
+                        v = val
+                ok = v is not None and v[0] == "c" and v[1] == 0
+                k = (c[5], c[6])
+                self.sites[k] = self.sites.get(k, True) and ok
+        return user
+
+
+def rule_F11a(ctx):
+    """while DD caching is on, DD mutators never seek back into an existing DD block"""
+    prog = ctx.prog
+    n = 0
+    flush = {"HTPsync", "HTPstart", "HTPinit", "HTPend"}
+    for f in prog.lib_funcs():
+        if not f.rel.endswith("hfiledd.c") or f.name in flush:
+            continue
+        if not any(c[1] == "HPseek" for _, _, _, c in f.calls()):
+            continue
+        for bid, i, s, nn in f.nodes(True):
+            if nn[0] == "asg" and mem_field(nn[2]) == ("filerec_t", "cache"):
+                ctx.unrecognised("F11a", "F11a:%s" % f.name, f.where(nn[4]), "stores to file_rec->cache inside a DD mutator")
+        a = F11a(prog)
+        a.run(f)
+        ordn = 0
+        for (ln, col), ok in sorted(a.sites.items()):
+            n += 1
+            ordn += 1
+            key = "F11a:%s:seek%d" % (f.name, ordn)
+            if ok:
+                ctx.holds("F11a", key, f.where(ln), "HPseek only on paths where file_rec->cache == 0")
+            else:
+                ctx.violated("F11a", key, f.where(ln),
+                             "HPseek into the DD area is reachable while file_rec->cache is on: a cached session would overwrite "
+                             "an existing DD block before the flush")
+    ctx.floor("F11a", 2, n, "(HPseek sites in DD mutators of hfiledd.c)")
+
+
+END_OFF_WRITERS = {"HPgetdiskblock", "HTPstart", "HTPinit", "HTInew_dd_block", "HTIupdate_dd", "Hwrite"}
+
+
+def rule_F11b(ctx):
+    """allocation provenance: file space comes only from the end-of-file allocator"""
+    prog = ctx.prog
+    n = 0
+    # who may write f_end_off
+    for f in prog.lib_funcs():
+        for bid, i, s, nn in f.nodes(True):
+            if nn[0] == "asg" and mem_field(nn[2]) == ("filerec_t", "f_end_off"):
+                n += 1
+                key = "F11b:endoff:%s" % f.name
+                if f.name in END_OFF_WRITERS:
+                    ctx.holds("F11b", key, f.where(nn[4]), "f_end_off written by a designated allocator/loader function", nontrivial=False)
+                else:
+                    ctx.violated("F11b", key, f.where(nn[4]), "filerec_t.f_end_off is written outside {%s}" % ", ".join(sorted(END_OFF_WRITERS)))
+    # offset argument of HTPupdate
+    m = 0
+    for f in prog.lib_funcs():
+        for bid, i, s, c in f.calls():
+            if c[1] != "HTPupdate" or len(c[3]) < 3:
+                continue
+            m += 1
+            off = strip(c[3][1])
+            key = "F11b:offset:%s:%s" % (f.name, render(off))
+            verdict, why = _offset_provenance(prog, f, off, 0)
+            if verdict == "ok":
+                ctx.holds("F11b", key, f.where(c[5]), why)
+            elif verdict == "bad":
+                ctx.violated("F11b", key, f.where(c[5]), "offset passed to HTPupdate is computed (%s) instead of coming from HPgetdiskblock, "
+                             "an existing descriptor or the 'unchanged'/invalid constants" % why)
+            else:
+                ctx.unrecognised("F11b", key, f.where(c[5]), why)
+    ctx.floor("F11b", 4, m, "(HTPupdate call sites)")
+    ctx.floor("F11b", 5, n, "(stores to f_end_off)")
+
+
+def _offset_provenance(prog, f, e, depth):
+    e = strip(e)
+    k = kind(e)
+    if k == "int":
+        return "ok", "constant %s" % render(e)
+    if k == "mem" and e[2] in ("offset",) and e[3] in ("dd_t",):
+        return "ok", "offset of an existing descriptor"
+    if k == "mem" and e[2] in ("extern_offset", "offset"):
+        return "ok", "offset field of a special-element record (%s.%s)" % (e[3], e[2])
+    if k == "call":
+        if e[1] == "HPgetdiskblock":
+            return "ok", "result of HPgetdiskblock"
+        return "bad", "result of %s()" % e[1]
+    if k == "var":
+        name = e[1]
+        if e[2] == "p":
+            # parameter: check call sites one level up
+            if depth >= 2:
+                return "unrec", "parameter chain too deep for %s" % name
+            idx = [p[0] for p in f.params].index(name)
+            callers = prog.callers().get(f.name, [])
+            libc = [(cf, c) for cf, c in callers if "/src/" in cf.rel]
+            if not libc:
+                return "ok", "parameter of an uncalled/entry function"
+            whys = []
+            for cf, c in libc:
+                if idx >= len(c[3]):
+                    continue
+                v, w = _offset_provenance(prog, cf, c[3][idx], depth + 1)
+                if v != "ok":
+                    return v, "%s passes %s" % (cf.name, w)
+                whys.append(w)
+            return "ok", "parameter; every caller passes: " + "; ".join(sorted(set(whys)))[:200]
+        defs = []
+        for bid, i, s, n in f.nodes(True):
+            if n[0] == "asg" and kind(strip(n[2])) == "var" and strip(n[2])[1] == name:
+                if n[1] != "=":
+                    return "bad", "%s %s …" % (name, n[1])
+                defs.append(n[3])
+            elif n[0] == "decl":
+                for d in n[1]:
+                    if d[0] == name and d[2] is not None:
+                        defs.append(d[2])
+            elif n[0] == "call":
+                # out-parameter of HTPinquire / Hinquire style: &name passed
+                for j, a in enumerate(n[3]):
+                    a = strip(a)
+                    if kind(a) == "addr" and kind(strip(a[1])) == "var" and strip(a[1])[1] == name:
+                        defs.append(["outparam", n[1], j])
+        if not defs:
+            return "unrec", "no definition of %s found" % name
+        whys = []
+        for d in defs:
+            if kind(d) == "outparam":
+                if d[1] in ("HTPinquire", "HTPis_special", "Hinquire", "HDinqblockinfo"):
+                    whys.append("read back from an existing descriptor via %s" % d[1])
+                    continue
+                return "bad", "out-parameter of %s" % d[1]
+            v, w = _offset_provenance(prog, f, d, depth)
+            if v != "ok":
+                return v, w
+            whys.append(w)
+        return "ok", "; ".join(sorted(set(whys)))[:200]
+    if k == "asg":
+        return _offset_provenance(prog, f, e[3], depth)
+    return "bad", render(e)[:80]
